@@ -12,7 +12,7 @@ PROPS = {
         "rule": "cases = positions from seeded generators (dense random placements incl. promoted material, sparse endgames, adversarial check/pin/e.p./castling constructions, "
                 "positions reached by ONE played move from generated positions (every double push of pre-double-push constructions, where the e.p. bookkeeping of MakeMove decides), positions reached by MakeMove along biased playouts from a 214-FEN corpus and the same positions reloaded from FEN, every loaded position also parsed with ParseFEN into a board that held another position before, exhaustive 3-men classes, strided 4-men classes with e.p.) "
                 "plus perft comparisons through debug.Perft and the UCI perft command; each case compares the engine's playable-move multiset with the reference legal moves. "
-                "distinct_nontrivial = distinct (placement, side, rights, normalised e.p.) keys among cases with >= 3 pieces and >= 1 legal move. " + VALID,
+                "debug.Perft and the UCI `perft N` command are compared with the model's perft on 6000 (thorough 120000) / 100 roots, every third one carrying a RAW e.p. target as GUIs write it (capturable or not). distinct_nontrivial = distinct (placement, side, rights, normalised e.p.) keys among cases with >= 3 pieces and >= 1 legal move. " + VALID,
         "assumptions": [REF],
         "technique": "runtime monitor: reference-model oracle (independent mailbox move generator) over generated and played-out positions, exhaustive 3-men enumeration",
         "level_text": "Every explored position's playable-move multiset equals the reference legal-move set (and has no duplicate), on ~2e6 (quick) / ~4e7 (thorough) positions incl. exhaustive 3-men classes, both loaded from FEN and reached by MakeMove; perft through debug.Perft and UCI perft agrees with reference perft. Held on the executions observed, not a proof.",
@@ -24,7 +24,7 @@ PROPS = {
         "rule": "cases = (position, legal move) pairs: every legal move of generated positions (dense, sparse, adversarial e.p./check/castling constructions) and every move of game histories "
                 "(biased playouts, oscillating shuffles, capture-free runs that push the halfmove clock through 100/128/150) played on ONE engine board that is never reloaded, plus UCI scripts "
                 "`position (startpos|fen F) moves ...; fen`; each case compares all six FEN fields of the engine successor with reference Make + e.p. normalisation (target kept iff a legal e.p. capture exists). "
-                "distinct_nontrivial = distinct start keys (one-step) + distinct (start, move list) histories. " + VALID,
+                "UCI path: one `position ... moves ...` + `fen` per fresh driver (also command lines of several KB) and SESSIONS of 3-8 position commands in ONE driver (the same game resent with more moves, take-backs, startpos and fen games interleaved, ucinewgame/isready in between), `fen` after each: the position after a command depends on that command alone. distinct_nontrivial = distinct start keys (one-step) + distinct (start, move list) histories. " + VALID,
         "assumptions": [REF, "a legal game ends by rule when the halfmove clock reaches 150, histories are generated up to that value"],
         "technique": "runtime monitor: reference-model successor oracle (field-wise FEN comparison) along carried game histories and through the real UCI driver",
         "level_text": "Every explored (position, legal move) successor and every prefix of every explored history has exactly the reference FEN (placement, side, rights, normalised e.p., both counters), ~1e6 quick / ~2e7 thorough comparisons, incl. thousands of e.p. targets suppressed because the capture would be illegal and clocks past 128. Held on the executions observed.",
@@ -36,7 +36,7 @@ PROPS = {
         "rule": "cases = make/undo pairs with a deep snapshot (all exported fields + full hash history + fullmove number via the board hook) taken before the make and compared after the undo: "
                 "(1) exhaustive trees of depth 2-3 from corpus and generated roots reached through a short move prefix, where EVERY pseudo-legal move (legal or not) and the null move is made and undone at every node; "
                 "(2) random lines of up to 400 plies of legal moves with interleaved null moves, unwound completely in reverse with the stored snapshot compared at every level; (3) debug.Perft(3) must leave the board unchanged. "
-                "The in-situ consistency hook (verifCheck) runs inside every MakeMove/UndoMove/MakeNullMove/UndoNullMove. distinct_nontrivial = distinct tree roots + distinct lines. " + VALID,
+                "The in-situ consistency hook (verifCheck) runs inside every MakeMove/UndoMove/MakeNullMove/UndoNullMove. Half of the deep lines run on past the 75-move boundary preferring reversible moves (clocks of 300-600 are made and undone; counter highest_halfmove_clock_in_a_line). distinct_nontrivial = distinct tree roots + distinct lines. " + VALID,
         "assumptions": [REF, "snapshot equality compares slice contents and length, not capacity"],
         "technique": "runtime monitor: invariant at a hook (deep board snapshot before make / after undo) over exhaustive shallow trees and deep random lines incl. illegal pseudo-legal moves and null moves",
         "level_text": "Every explored make/undo pair (legal moves, illegal pseudo-legal moves, null moves; nested up to 400 deep; ~1e7 quick / ~2e8 thorough) restored every attribute of the board including the whole hash history. Held on the executions observed.",
@@ -148,7 +148,7 @@ PROPS = {
         "rule": "cases = clock states: (a) through the export hook VerifLimits: exhaustive grid remaining time 1..4000 ms (thorough 1..20000) x increments {0..200, 1e3..1e9} x both colours, boundary neighbourhoods of 30/60/120/30k/120k/1e6/1e9/1e12, random clocks incl. movetime; "
                 "each case applies exactly the statement's inequalities (hard > 0, hard <= remaining, hard <= remaining-30 when remaining > 30, movetime => soft == hard == movetime) and re-evaluates with 12 variants of the OPPONENT's clock and increment, which must not change anything; "
                 "(b) end to end in synctest virtual time: the real uci.Driver with a blocking mock search; the SoftTime option the mock receives and the exact virtual instant at which Stop closes (the deadline actually armed, also after `go ponder` + `ponderhit`, also while the mock search has the driver's board at an odd ply - side to move flipped - and while the GUI pings `isready` every 7 virtual ms) are judged by the same inequalities "
-                "and must equal the helpers' values for the side to move. distinct_nontrivial = distinct remaining-time values of the exhaustive grid + distinct end-to-end clock states.",
+                "and must equal the helpers' values for the side to move. A deadline that is never armed is a violation: the bubble sleeps the whole remaining time + 1 s of virtual time and the stop channel must be closed by then. The margin is the driver's exported constant uci.TimeSafetyMargin (must be positive). distinct_nontrivial = distinct remaining-time values of the exhaustive grid + distinct end-to-end clock states.",
         "assumptions": ["virtual time inside testing/synctest bubbles is exact: no wall-clock quantity enters a verdict", "safety margin is 30 ms as documented in uci.TimeSafetyMargin"],
         "technique": "runtime monitor: inequality oracle over an exhaustive grid through an export hook + end-to-end observation of the armed deadline in synctest virtual time with the real driver",
         "level_text": "All grid, boundary and random clock states satisfied the statement's inequalities and were independent of the opponent's clock (~3e6 quick / ~3e7 thorough states); in thousands of virtual-time runs the real driver armed exactly that deadline for the side to move, incl. after ponderhit. Held on the executions observed.",
@@ -160,7 +160,7 @@ PROPS = {
         "rule": "cases = picker runs (position, hash candidate, ranker state, history stack): the real picker.New/Next/Move with the real move.Store and stack.Stack is iterated to exhaustion; the yielded sequence must be a permutation of GenNoisy+GenNotNoisy, "
                 "start with the hash candidate whenever that is generated, and every yielded weight must lie in its band (quiet within +-3*1024, noisy in the good/bad capture bands). Hash candidates: none, every generated move, and 256 (quick) / 4096 (thorough) random encodings "
                 "incl. promotion-bit variants of real moves. Ranker states: empty; driven to saturation by thousands of FailHigh calls with depths up to 127 and extreme weights (largest stored magnitude must stay <= 1024); and rankers taken from engines that have just searched real games. "
-                "Plus the EXHAUSTIVE one-step bound: for each of the three history tables, every stored value in [-1024,1024] x every bonus in [-1100,1100] stays within +-1024 (3 x 4.5e6 cases). distinct_nontrivial = distinct (position, ranker) pairs. " + VALID,
+                "Plus the EXHAUSTIVE one-step bound: for each of the three history tables, every stored value in [-M,M] x every bonus in [-M-76,M+76] stays within +-M, M = heur.MaxHistory (1024 on the current tree: 3 x 4.5e6 cases); the weight bands are the engine's exported heur.HashMove / heur.Captures / heur.MaxHistory and the layout must keep them apart (Captures > 3*MaxHistory, HashMove > Captures). distinct_nontrivial = distinct (position, ranker) pairs. " + VALID,
         "assumptions": [REF + " (validity only)", "band constants are those documented in heur/heur.go (HashMove 16k, Captures 7k, CaptureRange 1k, MaxHistory 1k)"],
         "technique": "runtime monitor: multiset-equality oracle against the generator on the real picker + band assertions at yield time + exhaustive one-step history bound",
         "level_text": "Every explored picker run yielded each pseudo-legal move exactly once, hash move first when pseudo-legal, all weights inside their bands (~2e6 runs quick / ~5e8 thorough) under empty, saturated and realistic history tables; the one-step history bound is checked exhaustively. Held on the executions observed.",
@@ -197,7 +197,7 @@ PROPS = {
                 "(depth 1..10, soft nodes, hard nodes, pre-closed stop channel, stop channel closed from another goroutine after 0..2000 us) x table sizes 32 B..16 MiB (tiny tables without Output), several requests per engine so tables are warm, half of the engines first search ANOTHER position (state left by a different root: PV buffer, tables, histories), a third of the roots run on a table with PLANTED entries for the root and successor hashes (pseudo-legal-but-illegal moves, arbitrary encodings, mate scores - what a 16-bit signature collision leaves behind), ponder searches that are hit / missed, wall-clock soft limits (legality only), "
                 "plus the ABORT SWEEP: WithNodes(k) for EVERY k in [0,K] (K=400 quick, 5000 thorough) on roots of every class - each k is one possible arrival time of stop / hard timeout - continued sparsely up to 40*K nodes (abort points inside aspiration re-searches and null-move subtrees of later iterations); plus the UCI path: `position ...; go <args>` with depth up to 1e6 and unparsable/negative/huge numbers. "
                 "Oracle per search: returned move is null or in the reference legal moves; null only if the root is final; a completed search on a final root returns null with score 0 / mated; deep board snapshot equal before and after Go; node budget not exceeded (also while pondering); the same engine then answers a fresh position legally; "
-                "the board consistency hook runs at every make/undo inside the search. thorough adds a verif,spsa build with random in-range parameter values, a -race build and an -asan build (the table is an unsafe.Slice over a byte buffer). distinct_nontrivial = distinct (root, table size) pairs.",
+                "the board consistency hook runs at every make/undo inside the search. A deep/wide workload goes to the far ends of the search's own dimensions: iteration depths 40-63 on bare endgames (K+P v K, K+P v K+P, K+R v K) and roots with 5-9 queens and 102+ legal moves; `locked` roots (rammed pawns, boxed kings, 1-3 legal moves) and warm-ups on siblings of the root (same position minus one or two men) line up per-slot engine state with the root's own moves. thorough adds a verif,spsa build with random in-range parameter values, a -race build and an -asan build (the table is an unsafe.Slice over a byte buffer). distinct_nontrivial = distinct (root, table size) pairs.",
         "assumptions": [REF, "time-based limits are replaced by node budgets (the search polls them at the same points); wall-clock only chooses the moment of an async stop, never a verdict"],
         "technique": "runtime monitor: reference legality oracle + deep board snapshot before/after + in-situ consistency hook over real searches with a dense abort-point sweep (node budget as logical stop time), race detector in thorough",
         "level_text": "Every explored search (~6e4 quick / ~5e6 thorough incl. every abort point k<=K on ~100/900 roots) returned a legal move or the null move on a final root, left the board identical, respected its node budget and left the engine usable; ~1e8 in-situ board consistency checks passed inside the searches. Held on the executions observed.",
@@ -209,7 +209,7 @@ PROPS = {
         "rule": "cases = traces of real searches (lines written to Output + return values): the C06 campaign (11 root classes x depth / soft / hard node limits / stop signals / table sizes, several searches per engine, and the abort sweep WithNodes(k) for every k<=K), "
                 "the same warm-up / planted-table / sparse deep abort points as C06, whole games played on ONE engine without Clear (tables warmed by the preceding searches) on 32000-byte (1000 buckets, heavy collisions), 1 MiB and 8 MiB tables, and the real UCI driver with Ponder=true (`info` and `bestmove M ponder P` lines). "
                 "Offline trace checker: every line parses under the info grammar; every pv is a sequence of successively legal moves from the root under the reference model; the returned move is the first move of the most recent NON-EMPTY pv (if none: null or a legal fallback move); "
-                "a non-null ponder move is legal after the returned move; depths strictly increase and node counts never decrease within a search (the abort line included). distinct_nontrivial = distinct (root, table size) pairs + distinct games.",
+                "a non-null ponder move is legal after the returned move; depths strictly increase and node counts never decrease within a search (the abort line included). The deep workload (32 quick / 320 thorough searches to iteration depth 40-63 with 12e6-30e6 nodes on bare endgames) produces variations of 45-60 moves (counter longest_pv). Info lines are parsed with the UCI info grammar (any field order, extra fields), not the engine's present format. distinct_nontrivial = distinct (root, table size) pairs + distinct games.",
         "assumptions": [REF],
         "technique": "runtime monitor: offline checker of recorded search traces (info-line grammar, PV legality under the reference model, move/PV/ponder agreement, monotone depth and node counters)",
         "level_text": "Every explored search trace (~5e4 quick / ~4e6 thorough, incl. aborted searches at every abort point and games on warm and heavily colliding tables) satisfied the trace specification: ~1e5+ PVs legal move by move, returned move = head of the last non-empty PV, ponder legal. Held on the executions observed.",
